@@ -87,8 +87,8 @@ ReportedInBound(e) ==
 FinalRecordsOk(e) ==
     ("final" \in DOMAIN e) =>
         \A i \in 1..Len(e.final) : LET r == e.final[i] IN
-            IF r.dropped THEN r.lat = 0 /\ r.svc = 0 /\ r.proc = 0
-            ELSE r.lat = 1 /\ r.svc = 1 /\ r.proc = 1 /\ r.metaOk
+            IF r.dropped THEN r.lat = 0 /\ r.svc = 0 /\ r.proc = 0 /\ r.dsvc = 0
+            ELSE r.lat = 1 /\ r.svc = 1 /\ r.proc = 1 /\ r.dsvc = r.deps /\ r.metaOk      \* + one service_time per dependent sub-request
 
 Holds(c, e) ==
     CASE c = "Barrier" -> Barrier'
